@@ -655,7 +655,7 @@ void renameVariables(TM &m, Src &src, unsigned scheme)
     for (size_t ci = 0; ci < nc; ++ci) {
         maxVars = std::max(maxVars, m.spec.comps[ci].vars.size());
     }
-    switch (scheme % 4) {
+    switch (scheme % 5) {
     case 0:
         for (size_t ci = 0; ci < nc; ++ci) {
             for (size_t v = 0; v < m.spec.comps[ci].vars.size(); ++v) {
@@ -686,7 +686,7 @@ void renameVariables(TM &m, Src &src, unsigned scheme)
         }
         break;
     }
-    default:
+    case 3:
         for (size_t ci = 0; ci < nc; ++ci) {
             std::vector<std::string> names;
             for (const auto &v : m.spec.comps[ci].vars) {
@@ -696,6 +696,67 @@ void renameVariables(TM &m, Src &src, unsigned scheme)
             nn[ci] = names;
         }
         break;
+    default: {
+        // targeted: for some classes that are defined in one component and have members elsewhere, every member outside the
+        // defining component gets a name that an UNRELATED variable of the defining component carries too (names are unique per
+        // component only), while the member in the defining component keeps a name of its own
+        for (size_t ci = 0; ci < nc; ++ci) {
+            for (const auto &v : m.spec.comps[ci].vars) {
+                nn[ci].push_back(v.name);
+            }
+        }
+        auto usedIn = [&](size_t ci, const std::string &n) {
+            return std::find(nn[ci].begin(), nn[ci].end(), n) != nn[ci].end();
+        };
+        std::vector<bool> taken; // per (component, variable) of a defining component: already lent its name
+        std::vector<std::vector<bool>> lent(nc);
+        for (size_t ci = 0; ci < nc; ++ci) {
+            lent[ci].assign(nn[ci].size(), false);
+        }
+        int serial = 0;
+        for (size_t k = 0; k < m.classes.size(); ++k) {
+            int home = m.homeComp(static_cast<int>(k));
+            auto where = m.compsWith(static_cast<int>(k));
+            if (home < 0 || where.size() < 2 || src.flip(25)) {
+                continue;
+            }
+            size_t q = static_cast<size_t>(home);
+            // an unrelated variable of the defining component that has not lent its name yet
+            std::vector<size_t> cand;
+            for (size_t v = 0; v < nn[q].size(); ++v) {
+                if (m.classOf[q][v] != static_cast<int>(k) && !lent[q][v]) {
+                    cand.push_back(v);
+                }
+            }
+            if (cand.empty()) {
+                continue;
+            }
+            size_t z = src.pick(cand);
+            std::string shared = "n" + std::to_string(serial++) + (src.flip(50) ? "_shared" : "");
+            bool free = !usedIn(q, shared);
+            for (size_t ci : where) {
+                free = free && (ci == q || !usedIn(ci, shared));
+            }
+            if (!free) {
+                continue;
+            }
+            nn[q][z] = shared;
+            lent[q][z] = true;
+            for (size_t ci : where) {
+                if (ci != q) {
+                    size_t v = static_cast<size_t>(m.instanceIn(static_cast<int>(k), ci));
+                    nn[ci][v] = shared;
+                    lent[ci][v] = true;
+                }
+            }
+            int hv = m.instanceIn(static_cast<int>(k), q);
+            if (hv >= 0) {
+                lent[q][static_cast<size_t>(hv)] = true;
+            }
+        }
+        (void)taken;
+        break;
+    }
     }
     applyVariableNames(m, nn);
 }
